@@ -57,9 +57,9 @@ def run(ctx):
         ctx.design("Archive/Archive.tla", "ArchiveV1_quick.cfg", workers=W, timeout=300, note="depth<=1 width<=2 + every truncation")
         ctx.design("Archive/Archive.tla", "ArchiveC_quick.cfg", workers=W, timeout=300, note="<=2 chunks, every boundary length, every truncation, every read sequence")
     else:
-        ctx.design("Archive/Archive.tla", "ArchiveV.cfg", workers=W, timeout=1500, heap="16g", note="all values depth<=2 width<=2 + every truncation")
-        ctx.design("Archive/Archive.tla", "ArchiveVrich.cfg", workers=W, timeout=1500, heap="16g", note="depth<=2 width<=1, pairs/structs/maps over all depth-1 types (350k values), whole archives")
-        ctx.design("Archive/Archive.tla", "ArchiveC.cfg", workers=W, timeout=1500, heap="16g", note="<=3 chunks, every boundary length, every truncation, every read sequence")
+        ctx.design("Archive/Archive.tla", "ArchiveV.cfg", workers=W, timeout=1500, heap="6g", note="all values depth<=2 width<=2 + every truncation")
+        ctx.design("Archive/Archive.tla", "ArchiveVrich.cfg", workers=W, timeout=1500, heap="6g", note="depth<=2 width<=1, pairs/structs/maps over all depth-1 types (350k values), whole archives")
+        ctx.design("Archive/Archive.tla", "ArchiveC.cfg", workers=W, timeout=1500, heap="6g", note="<=3 chunks, every boundary length, every truncation, every read sequence")
     # the model must see the comparison of the pinned commit (ptr+size >= size()) as unsafe
     ctx.design("Archive/Archive.tla", "ArchiveC_c717.cfg", workers=4, timeout=300, expect_violation="InBounds",
                extra=["-noGenerateSpecTE"], count=False, note="self-test: GuardMode=c717 violates InBounds")
